@@ -8,6 +8,7 @@ import itertools
 import json
 
 from mc import autox, budget, core, par
+from mc.snap import digest
 from mc.props import C12
 
 R = (0x00, 0x01, 0x02, 0x06, 0x09, 0x0A, 0x0C, 0x0F, 0x10, 0x12, 0x16, 0xFF, 0x28, 0x29, 0x7F, 0x80)
@@ -15,7 +16,7 @@ ASCII = ("1", ".", "(", ")", "*", "x", "\n")
 STATES = (None,) + autox.DECODER_NAMES
 _QUICK = True
 PRIME_QUICK = (1, 6)
-PRIME_THOROUGH = (1, 2, 6, 21, 64)
+PRIME_THOROUGH = (1, 6, 64)
 
 
 def primed(state, k, makers):
@@ -80,10 +81,12 @@ def mutations(msg: bytes, two: bool):
 def _drive(p, inputs, label, primes=(1,)):
     gen, ev, makers = C12.pool()
     decs = {}
+    ref_dg = {}
     for st0 in STATES:
         for kp in (primes if st0 is not None else (1,)):
             try:
                 decs[(st0, kp)] = primed(st0, kp, makers)
+                ref_dg[(st0, kp)] = digest(decs[(st0, kp)])
             except Exception:  # noqa: BLE001  (state not reachable on a broken tree: C12 reports that)
                 p.add("unreachable_states")
     for n_in, inp in enumerate(inputs):
@@ -95,7 +98,9 @@ def _drive(p, inputs, label, primes=(1,)):
                 a = decs[key]
                 par.beat(json.dumps({"state": st, "input": inp.hex(), "entry": entry}) if len(inp) <= 400 else f"state {st} {entry} input {inp[:200].hex()}.. ({len(inp)} B)")
                 k, v, c = run_one(a, inp, entry)
-                if a.previous_success_decoder != st or kp > 1:
+                if a.previous_success_decoder != st or digest(a) != ref_dg[key]:
+                    # the input changed the decoder (its complete snapshot differs from the primed one): build the
+                    # history again; an unchanged snapshot has the same future (the assumption behind C12's fixpoint)
                     decs[key] = primed(st, kp, makers)
                 p.add("executions")
                 if c > p.mx.get("max_calls", 0):
@@ -252,18 +257,19 @@ def main(run: core.Run) -> int:
                 "non-trivial = distinct inputs")
     gen, ev, makers = C12.pool()
     keys = sorted(gen)
-    if q:
+    pick = None
+    if True:
         pick = ["fix.aidon.no_list_1.frame", "fix.aidon.no_list_2.body", "fix.kaifa.no_list_2.frame", "fix.kaifa.se_list.body", "fix.kamstrup.no_list_1_single_phase_real_sample.frame",
                 "fix.kamstrup.no_list_2_single_phase.body", "ref.kaifa.list1_1320W.body", "ref.kaifa.9.body"]
-    else:
-        pick = keys
+    if not q:
+        pick = pick + keys[::3]  # every third message of the pool in addition to the quick selection
     pick = sorted(set(pick))
     tasks = []
     for k in pick:
         nsl = max(1, len(gen[k][0]) // 24)
         tasks += [(k, i, nsl, False, PRIME_QUICK if q else PRIME_THOROUGH) for i in range(nsl)]
     if not q:
-        for k in [x for x in keys if x.startswith("fix.")][::4]:
+        for k in [x for x in keys if x.startswith("fix.")][::7]:
             tasks += [(k, i, 32, True, (1,)) for i in range(32)]
     run.log(f"{len(pick)} messages, {len(tasks)} partitions")
     run.merge(par.pmap(_work_msg, tasks, seed=run.seed))
